@@ -1160,12 +1160,17 @@ SuccRest == UNCHANGED <<grp, zomb, kps, props, commits, winner, opt, repo, store
 SuccGid(kind, n) == IF kind = "reinit" THEN "next" ELSE "branch"
 
 \* ReinitClient::commit / Group::branch by p with the key packages S (a set of key package ids)
-SuccCreate(kind, p, S) ==
+\* tw: "none", or the creator is an insider that deviates from what was announced ("gid": another group id than the
+\* re-init proposal named; "ext": other group context extensions than announced / than the old group's).  The
+\* creator holds the real resumption secret, so only the joiners' comparison with the announcement stops it.
+SuccTweaks == {"none", "gid", "ext"}
+TweakedExt == 777
+SuccCreate(kind, p, S, tw) ==
     LET g == grp[p]
         owners == {kps[i].owner : i \in S}
         old == Members(g.tree)
         dup == \E i, j \in S : i # j /\ kps[i].owner = kps[j].owner
-        args == [kind |-> kind, kps |-> SetToSortedSeq(S)]
+        args == [kind |-> kind, kps |-> SetToSortedSeq(S), tweak |-> tw]
         res == IF kind = "reinit" /\ ~g.frozen THEN "err:no-reinit"
                ELSE IF dup \/ p \in owners THEN "err:rule:duplicate"
                ELSE IF kind = "reinit" /\ owners \cup {p} # old THEN "err:not-subgroup"
@@ -1173,9 +1178,11 @@ SuccCreate(kind, p, S) ==
                ELSE "ok"
         rec == [kind |-> kind, by |-> p, ks |-> g.ks, members |-> owners \cup {p},
                 kp |-> [q \in owners |-> CHOOSE i \in S : kps[i].owner = q],
-                ext |-> IF kind = "reinit" THEN 0 ELSE g.ext, joined |-> {}, forged |-> FALSE]
+                ext |-> IF tw = "ext" THEN TweakedExt ELSE IF kind = "reinit" THEN 0 ELSE g.ext, joined |-> {}, forged |-> FALSE,
+                tweak |-> tw]
     IN
     /\ "succ" \in Features /\ HasGroup(p) /\ kind \in {"reinit", "branch"} /\ S \subseteq SuccKps /\ Len(succ) < MaxSucc
+    /\ tw \in SuccTweaks /\ (tw = "gid" => kind = "reinit") /\ (tw # "none" => "succtweak" \in Features)
     /\ succ' = IF res = "ok" THEN Append(succ, rec) ELSE succ
     /\ SuccRest
     /\ Record("SuccCreate", p, args, res,
@@ -1188,7 +1195,7 @@ SuccForge(kind, p, r, S) ==
     LET owners == {kps[i].owner : i \in S}
         rec == [kind |-> kind, by |-> p, ks |-> NoSecrets, members |-> owners \cup {p},
                 kp |-> [q \in owners |-> CHOOSE i \in S : kps[i].owner = q],
-                ext |-> IF kind = "reinit" THEN 0 ELSE grp[r].ext, joined |-> {}, forged |-> TRUE]
+                ext |-> IF kind = "reinit" THEN 0 ELSE grp[r].ext, joined |-> {}, forged |-> TRUE, tweak |-> "none"]
     IN
     /\ "succ" \in Features /\ HasGroup(r) /\ kind \in {"reinit", "branch"} /\ S \subseteq SuccKps /\ S # {} /\ Len(succ) < MaxSucc
     /\ p \notin owners /\ \A i, j \in S : i # j => kps[i].owner # kps[j].owner
@@ -1203,7 +1210,7 @@ SuccJoin(q, s, how) ==
     LET sg == succ[s]
         res == IF how = "plain" THEN (IF sg.forged THEN "ok" ELSE "err:succ")   \* a forged successor is an ordinary group
                ELSE IF how = "reinit" /\ ~grp[q].frozen THEN "err:no-reinit"
-               ELSE IF ~sg.forged /\ how = sg.kind /\ grp[q].ks = sg.ks THEN "ok"
+               ELSE IF ~sg.forged /\ how = sg.kind /\ grp[q].ks = sg.ks /\ sg.tweak = "none" THEN "ok"
                ELSE "err:succ"
     IN
     /\ "succ" \in Features /\ s \in 1..Len(succ) /\ q \in DOMAIN sg.kp /\ how \in {"reinit", "branch", "plain"}
@@ -1215,7 +1222,7 @@ SuccJoin(q, s, how) ==
 
 SuccNext ==
     \/ \E p \in Parties : GenSuccKeyPackage(p)
-    \/ \E p \in Parties : \E kind \in {"reinit", "branch"} : \E S \in SUBSET SuccKps : SuccCreate(kind, p, S)
+    \/ \E p \in Parties : \E kind \in {"reinit", "branch"} : \E S \in SUBSET SuccKps : \E tw \in SuccTweaks : SuccCreate(kind, p, S, tw)
     \/ \E q \in Parties : \E s \in 1..Len(succ) : \E how \in {"reinit", "branch", "plain"} : SuccJoin(q, s, how)
     \/ \E p, r \in Parties : \E kind \in {"reinit", "branch"} : \E S \in SUBSET SuccKps : SuccForge(kind, p, r, S)
 
@@ -1276,6 +1283,8 @@ SuccessorsLegal ==
                 /\ (sg.kind = "reinit" => (sg.members = Members(grp[p].tree) /\ grp[p].frozen))
                 /\ (sg.kind = "branch" => sg.members \subseteq Members(grp[p].tree))
         /\ sg.joined \subseteq (sg.members \ {sg.by})
+        \* nobody joins a successor whose parameters are not the announced ones
+        /\ (sg.tweak # "none" => sg.joined = {})
 
 \* C17: once a re-init is committed the old group never changes epoch again
 FrozenNeverAdvances ==
